@@ -398,7 +398,17 @@ class Interp:
     st_Global = st_Nonlocal = st_Import = st_ImportFrom = st_Pass
 
     def st_FunctionDef(self, n, s):
-        s.env[n.name] = Sym('func:%s' % n.name, truthy=True, attrs={'node': n} if isinstance(n, ast.FunctionDef) else None)
+        fv = Sym('func:%s' % n.name, truthy=True, attrs={'node': n} if isinstance(n, ast.FunctionDef) else None)
+        s.env[n.name] = fv
+        for dec in getattr(n, 'decorator_list', []):
+            # @stack.callback on a nested function: registered with an ExitStack of this state (run when its `with` ends)
+            if isinstance(dec, ast.Attribute) and dec.attr == 'callback':
+                owner = self.ev(dec.value, s)
+                if isinstance(owner, Obj) and isinstance(owner.attrs.get('__callbacks'), list):
+                    owner.attrs['__callbacks'].append(fv)
+                    continue
+            if self.heap and isinstance(n, ast.FunctionDef):
+                self.imprecise.append('decorator %s on the nested function %s is not modelled (line %s)' % (_text(dec)[:40], n.name, n.lineno))
         return {'fall': [(s, None)]}
 
     st_ClassDef = st_AsyncFunctionDef = st_FunctionDef
@@ -727,11 +737,30 @@ class Interp:
             nxt = []
             for st in states:
                 for s2, v in self.expr(item.context_expr, st):
+                    if isinstance(item.context_expr, ast.Call) and _text(item.context_expr.func) in ('contextlib.ExitStack', 'ExitStack') and self.heap:
+                        v = Obj('ExitStack@%d' % n.lineno, {'__callbacks': []})
+                        s2.env.setdefault('__exitstacks@%d' % n.lineno, v)
                     if item.optional_vars is not None:
                         self.assign(item.optional_vars, v if (not is_concrete(v) or isinstance(v, Obj)) else TOP, s2, n, quiet=True)
                     nxt.append(s2)
             states = nxt
-        return self.block(n.body, states)
+        outs = self.block(n.body, states)
+        key = '__exitstacks@%d' % n.lineno
+        if any(key in st.env for lst in outs.values() for st, _v in lst):
+            # leaving the with block by any route runs the registered callbacks, last in first out
+            for kind, lst in outs.items():
+                for st, _v in lst:
+                    stack = st.env.pop(key, None)
+                    if not isinstance(stack, Obj):
+                        continue
+                    pending = st.env.pop('__exc', None)
+                    for cb in reversed(stack.attrs.get('__callbacks', [])):
+                        r = self.call_value(cb, [], st, n.lineno)
+                        if r is None:
+                            self.imprecise.append('an ExitStack callback could not be interpreted (line %s)' % n.lineno)
+                    if pending is not None:
+                        st.env['__exc'] = pending
+        return outs
 
     def st_While(self, n, s):
         return self._loop(n, s, None)
@@ -1674,6 +1703,8 @@ class Interp:
             return getattr(_string, attr)
         if isinstance(base, str) and not attr.startswith('_') and callable(getattr(str, attr, None)):
             return ('boundmethod', base, attr)
+        if isinstance(base, bytes) and not attr.startswith('_') and callable(getattr(bytes, attr, None)):
+            return ('boundmethod', base, attr)
         if isinstance(base, _REAL_TYPES) and not attr.startswith('_') and callable(getattr(base, attr, None)):
             return ('boundmethod', base, attr)
         if isinstance(base, _pathlib.PurePosixPath) and attr in ('name', 'stem', 'suffix', 'parent', 'parts', 'suffixes'):
@@ -2427,6 +2458,14 @@ class Interp:
             # methods of library objects built from constants (compiled patterns, string templates): the library's own semantics
             args = [str(a) if isinstance(a, TextObj) else a for a in args]          # a text node is a string for the library
             if all(_plain(a) for a in args) and all(_plain(v) for v in kwargs.values()):
+                try:
+                    return getattr(recv, meth)(*args, **kwargs)
+                except Exception as e:
+                    self._pending_exc = type(e).__name__
+                    return TOP
+            return TOP
+        if isinstance(recv, bytes):
+            if all(isinstance(a, (bytes, str, int)) for a in args) and all(_plain(v) for v in kwargs.values()):
                 try:
                     return getattr(recv, meth)(*args, **kwargs)
                 except Exception as e:
